@@ -2,14 +2,15 @@
 
 Tie: hand-written Coq model (coq/C19/Model.v) of RegisterStack, ValueAllocator,
 HasRegisterConstraints.allocate_registers, BlockNaiveAllocator.allocate_block, the RISC-V zero rule,
-allocate_func's exclusion of pre-allocated registers and riscv_scf.for allocation (one nesting level) vs the
-real classes on generated single-block riscv_func / x86_func functions.  Compared exactly: the register of
+allocate_func's exclusion of pre-allocated registers and riscv_scf.for allocation (loop nests of depth one and
+two) vs the real classes on generated single-block riscv_func / x86_func functions (x86: general-purpose pool
+with aliasing names rcx/ecx/cx/cl, and the vector pool with xmm/ymm/zmm aliases; registers compared by pool index).  Compared exactly: the register of
 every value (block arguments, results, loop-body values) and the final RegisterStack (available list in
 order, allocatable set, reservation counts, next infinite index), or the kind of failure.
 Oracle (independent of the model): backward liveness + interference check on the allocated IR, pre-assigned
 registers kept, fresh registers drawn only from the pool handed to the allocator (or infinite ones if allowed,
 or `zero` for constants 0), and a register-machine run of the allocated ops against an SSA evaluation with
-pseudo-random uninterpreted op functions (loops unrolled for 0..2 iterations).
+pseudo-random uninterpreted op functions (every loop of a nest unrolled for 0, 1 and 2 iterations).
 Non-trivial: the allocation succeeded on a program in which at least two values are live simultaneously
 and some register is reused by two different values; distinct = distinct case.
 """
@@ -44,16 +45,17 @@ META = {
         "allocatable nor pre-assigned, pool of real registers) and forced_ok (the input's own ties/pre-assignments are "
         "satisfiable); without forced_ok, C19_interference_confined shows any sharing is confined to registers the input "
         "itself pre-assigned. "
-        "riscv_scf.for allocation (live-ins, loop-carried groups, reserved registers, one nesting level) is modelled and "
-        "tied by correspondence and the oracle but has no theorem. Tie: the model is run next to the real "
+        "riscv_scf.for allocation (live-ins incl. those of inner loops, loop-carried groups, reserved registers; nests of "
+        "depth one and two) is modelled and tied by correspondence and the oracle but has no theorem. Tie: the model is run next to the real "
         "riscv/x86 allocate_func on generated functions and the complete value->register map and final RegisterStack are "
         "compared exactly; an independent liveness/interference checker and register-machine simulation judge the real "
         "output."),
     "level_note": (
-        "Trusted: Coq kernel; the hand-written model (one register pool: integer registers; values as ids); the "
+        "Trusted: Coq kernel; the hand-written model (one register pool per function -- riscv integer, x86 general-purpose "
+        "incl. aliasing sub-register names, or x86 vector incl. xmm/ymm/zmm aliases; registers are pool indices; values as ids); the "
         "correspondence harness and its generic test operation (a RISCVInstruction / X86Instruction subclass with variadic "
-        "in/out/inout operands, as in xDSL's own tests). Not covered: float/vector pools (independent pools keyed by "
-        "register_pool_key), x86_scf.for, riscv_snitch frep ops, nested loops deeper than one level, add_regalloc_stats, "
+        "in/out/inout operands, as in xDSL's own tests). Not covered: the riscv float pool and functions mixing pools (pools are "
+        "independent, keyed by register_pool_key), x86_scf.for, riscv_snitch frep ops, loop nests deeper than two levels, add_regalloc_stats, "
         "loops whose loop-carried groups overlap (a carried block argument yielded in another position, one value in two "
         "iter_args slots: the real allocator then re-replaces a stale value object and leaves the IR ill-formed), a value in "
         "two in/out slots of one operation; the legalisation passes (x86-regalloc-legalize / verify-liveness) that establish "
@@ -88,6 +90,8 @@ TRUSTED = []
 
 
 def _classes(arch):
+    if arch == "x86v":
+        arch = "x86"
     from xdsl.backend.register_allocatable import RegisterConstraints
     from xdsl.backend.register_type import RegisterAllocatedMemoryEffect
     from xdsl.irdl import (AttrSizedOperandSegments, AttrSizedResultSegments, irdl_op_definition, traits_def,
@@ -139,20 +143,29 @@ def _classes(arch):
     return GenOp
 
 
+def tidx(t):
+    """register index of a case type: None | index | [alias class, index] (x86: r32 r16 r8 / sse avx512)"""
+    return t[1] if isinstance(t, list) else t
+
+
 def reg_type(arch, t):
     if arch == "riscv":
         from xdsl.dialects import riscv
         cls = riscv.IntRegisterType
     else:
-        from xdsl.dialects.x86 import registers
-        cls = registers.Reg64Type
+        from xdsl.dialects.x86 import registers as R
+        cls = R.AVX2RegisterType if arch == "x86v" else R.Reg64Type
+        if isinstance(t, list):
+            cls = {"r64": R.Reg64Type, "r32": R.Reg32Type, "r16": R.Reg16Type, "r8": R.Reg8Type,
+                   "sse": R.SSERegisterType, "avx2": R.AVX2RegisterType, "avx512": R.AVX512RegisterType}[t[0]]
+            t = t[1]
     if t is None:
         return cls.unallocated()
     return cls.from_index(t)
 
 
 def default_pool(arch):
-    """the include order of the target's default stack, restricted to the integer pool"""
+    """the include order of the target's default stack, restricted to the modelled pool"""
     if arch == "riscv":
         from xdsl.backend.riscv.register_stack import RiscvRegisterStack
         from xdsl.dialects import riscv
@@ -160,12 +173,12 @@ def default_pool(arch):
                 if isinstance(r, riscv.IntRegisterType)]
     from xdsl.backend.x86.register_stack import X86RegisterStack
     from xdsl.dialects.x86 import registers
-    return [r.index.data for r in X86RegisterStack.DEFAULT_ALLOCATABLE_REGISTERS
-            if isinstance(r, registers.GeneralRegisterType)]
+    base = registers.X86VectorRegisterType if arch == "x86v" else registers.GeneralRegisterType
+    return [r.index.data for r in X86RegisterStack.DEFAULT_ALLOCATABLE_REGISTERS if isinstance(r, base)]
 
 
 def pool_key(arch):
-    return "riscv.reg" if arch == "riscv" else "x86.reg"
+    return {"riscv": "riscv.reg", "x86": "x86.reg", "x86v": "x86.vector"}[arch]
 
 
 def build_ops(arch, ops, vals, GenOp):
@@ -266,17 +279,17 @@ def build(case):
 
 
 def current_values(blk):
-    """values in definition order, read from the IR after allocation"""
+    """values in definition order (the case numbering), read from the IR after allocation"""
     out = list(blk.args)
-    for op in blk.ops:
-        if op.name in ("riscv_func.return", "x86_func.ret"):
-            continue
-        out.extend(op.results)
-        for r in op.regions:
-            b = r.block
-            out.extend(b.args)
-            for bop in b.ops:
-                out.extend(bop.results)
+    def ops_of(b):
+        for op in b.ops:
+            if op.name in ("riscv_func.return", "x86_func.ret", "riscv_scf.yield"):
+                continue
+            out.extend(op.results)
+            for r in op.regions:
+                out.extend(r.block.args)
+                ops_of(r.block)
+    ops_of(blk)
     return out
 
 
@@ -341,7 +354,7 @@ class _Flat:
         self.kind = {}         # value id -> ("arg",) | ("li", imm) | ("mv", src) | ("op",) | ("barg",)
         nv = 0
         for t in case["args"]:
-            self.pre.append(t); self.kind[nv] = ("arg",); nv += 1
+            self.pre.append(tidx(t)); self.kind[nv] = ("arg",); nv += 1
         def number(ops):
             nonlocal nv
             outl = []
@@ -349,16 +362,17 @@ class _Flat:
                 if o["k"] == "for":
                     res = list(range(nv, nv + len(o["res"])))
                     for t in o["res"]:
-                        self.pre.append(t); self.kind[nv] = ("op",); nv += 1
+                        self.pre.append(tidx(t)); self.kind[nv] = ("op",); nv += 1
                     bargs = list(range(nv, nv + len(o["bargs"])))
                     for t in o["bargs"]:
-                        self.pre.append(t); self.kind[nv] = ("barg",); nv += 1
+                        self.pre.append(tidx(t)); self.kind[nv] = ("barg",); nv += 1
                     body = number(o["body"])
                     outl.append((o, res, (bargs, body)))
                     continue
                 rts = list(o.get("outs", [])) + [t for _, t in o.get("io", [])]
                 res = list(range(nv, nv + len(rts)))
                 for t in rts:
+                    t = tidx(t)
                     self.pre.append(t)
                     if o["k"] in ("li", "dimov"):
                         self.kind[nv] = ("li", o["imm"])
@@ -398,6 +412,24 @@ def operands_of(o):
     return list(o.get("ins", [])) + [v for v, _ in o.get("io", [])]
 
 
+def _defined_inside(bargs, body):
+    d = set(bargs)
+    for _, br, extra in body:
+        d |= set(br)
+        if extra:
+            d |= _defined_inside(extra[0], extra[1])
+    return d
+
+
+def _used_inside(o, body):
+    u = set(o["yield"])
+    for bo, _, extra in body:
+        u |= set(operands_of(bo))
+        if extra:
+            u |= _used_inside(bo, extra[1])
+    return u
+
+
 def find_conflict(fl, case, same):
     """Backward liveness over the program straight from the definitions.  Reports the first pair of
     distinct values (a, b) with same(a, b) such that both are live at one program point, or a is written by
@@ -427,11 +459,8 @@ def find_conflict(fl, case, same):
             live -= set(resids)
             if o["k"] == "for":
                 bargs, body = extra
-                inner = set(bargs)
-                for _, br, _ in body:
-                    inner |= set(br)
-                outer_used = {v for bo, _, _ in body for v in operands_of(bo) if v not in inner}
-                outer_used |= {v for v in o["yield"] if v not in inner}
+                inner = _defined_inside(bargs, body)
+                outer_used = {v for v in _used_inside(o, body) if v not in inner}
                 through = live | outer_used | {o["ub"]} | ({o["step"]} if o.get("step") is not None else set())
                 bl, e = walk(body, through | set(o["yield"]) | {bargs[0]}, where + ".")
                 if e:
@@ -687,9 +716,16 @@ def _gen_ops(rng, arch, n, visible, nv, dead_after, pick_type, wide, kinds):
             need_in = rng.choice([0, 1, 1, 2, 3])
         ins = [pick_val() for _ in range(need_in)]
         if any(v is None for v in ins):
-            k = o["k"] = "li" if arch == "riscv" else "dimov"
+            k = o["k"] = {"riscv": "li", "x86": "dimov", "x86v": "gen0"}[arch]
             ins = []
         o["ins"] = ins
+        if k == "gen0":
+            k = o["k"] = "gen"
+            o["outs"] = [pick_type()]
+            o["io"] = []
+            defined.append(nv); nv += 1
+            ops.append(o)
+            continue
         if k in ("li", "dimov"):
             o["imm"] = rng.choice([0, 0, 1, 5, 7]) if arch == "riscv" else rng.choice([0, 1, 5])
             o["outs"] = [pick_type()]
@@ -740,7 +776,10 @@ def _gen_env(rng, arch, p_pre, p_pool, allow_neg_pre):
     else:
         pool = None
     inf = rng.random() < 0.4
-    pre_choices = ([10, 11, 12, 5, 6, 8, 9] if arch == "riscv" else [7, 6, 2, 0, 3, 12])
+    # x86: also aliasing names of the same physical register (ecx / cx / cl, xmm3 / zmm3)
+    pre_choices = {"riscv": [10, 11, 12, 5, 6, 8, 9],
+                   "x86": [7, 6, 2, 0, 3, 12, ["r32", 1], ["r32", 2], ["r16", 3], ["r8", 1], ["r32", 8], ["r16", 0]],
+                   "x86v": [0, 1, 2, ["sse", 3], ["sse", 0], ["avx512", 1], ["avx512", 4], ["sse", 2]]}[arch]
     if allow_neg_pre:
         pre_choices = pre_choices + [-1, -2]
     def pick_type():
@@ -753,57 +792,93 @@ def gen_straight(rng, arch, nops=None, p_pre=0.15, p_pool=0.5, allow_neg_pre=Fal
     args = [pick_type() for _ in range(rng.choice([0, 0, 1, 2, 3]))]
     n = nops if nops is not None else rng.randint(1, 14 if wide else 9)
     dead_after = set()                               # values consumed by an in/out slot
-    kinds = RISCV_KINDS if arch == "riscv" else X86_KINDS
+    kinds = {"riscv": RISCV_KINDS, "x86": X86_KINDS, "x86v": ["gen"]}[arch]
     ops, defined, nv = _gen_ops(rng, arch, n, list(range(len(args))), len(args), dead_after, pick_type, wide, kinds)
     cands = [v for v in range(nv) if v not in dead_after]
     ret = rng.sample(cands, min(len(cands), rng.choice([0, 1, 1, 2, 3])))
+    if arch != "riscv":
+        # allocate_values_same_reg compares register TYPES: ecx and rcx are different types with one index.
+        # The model identifies a register with its pool index, so values taking part in an in/out tie carry
+        # only the pool's primary names (otherwise the real code may raise "Cannot allocate registers to the
+        # same register" where the model sees one register).
+        slots = [(args, a) for a in range(len(args))]
+        tied = set()
+        for o in ops:
+            slots += [(o["outs"], q) for q in range(len(o.get("outs", [])))]
+            for pair in o.get("io", []):
+                tied.add(pair[0]); tied.add(len(slots))
+                slots.append((pair, 1))
+        for v in tied:
+            box, key = slots[v]
+            if isinstance(box[key], list):
+                box[key] = box[key][1]
     return {"arch": arch, "pool": pool, "inf": inf, "args": args, "ops": ops, "ret": ret}
 
 
-def gen_loop(rng, p_pre=0.08, p_pool=0.4, copy_iters=0.85, wide=False):
-    """riscv function: preamble, one riscv_scf.for (one nesting level), postamble"""
-    arch = "riscv"
-    pool, inf, pick_type = _gen_env(rng, arch, p_pre, p_pool, False)
-    if pool is not None and rng.random() < 0.7:
-        pool = pool + rng.sample(default_pool(arch), 3)
-        pool = list(dict.fromkeys(pool))
-    args = [pick_type() for _ in range(rng.choice([0, 1, 2]))]
-    dead = set()
-    kinds = [k for k in RISCV_KINDS if k != "gen"] + ["gen"] * 2
-    pre_ops, pre_def, nv = _gen_ops(rng, arch, rng.randint(2, 6), list(range(len(args))), len(args), dead,
-                                    pick_type, wide, kinds)
-    outer = [v for v in list(range(len(args))) + pre_def if v not in dead]
-    if len(outer) < 2:
-        pre_ops += [{"k": "li", "ins": [], "imm": 1, "outs": [None]}, {"k": "li", "ins": [], "imm": 9, "outs": [None]}]
-        outer += [nv, nv + 1]
-        nv += 2
-    k = rng.choice([0, 1, 1, 2])
-    # iter operands: normally fresh copies that die at the loop (what convert-scf-to-riscv-scf emits);
-    # otherwise any outer value (possibly live across the loop)
+ARITH_KINDS = ["li", "add", "sub", "mul", "addi", "mv"]
+
+
+def _gen_for(rng, env, visible, nv, dead, bounds=None, nested=None, copy_iters=0.85):
+    """one riscv_scf.for: returns (operations to place before it, the loop, next id, result ids).
+    The loop-carried inits are defined FIRST, then 0..3 operations computing the bounds (so fresh
+    registers are needed while the inits are live), then the loop.  `bounds` = (lb, ub, step) fixed by the
+    caller (inner loop of a nest: values defined outside the OUTER loop); `nested` = bounds for an inner
+    loop to be placed in this loop's body, followed by temporaries."""
+    arch, pick_type, wide, kinds = env
+    prefix = []
+    live_vis = [v for v in visible if v not in dead]
+    k = rng.choice([0, 1, 1, 2]) if live_vis else 0
+    # feeders: two single-use values defined ABOVE the inits and consumed by a bound computation BELOW them
+    # (`%ub = add %n, %m`): fresh registers are then needed while the inits are live
+    feeders = []
+    if bounds is None and rng.random() < 0.6:
+        prefix += [{"k": "li", "ins": [], "imm": rng.choice([2, 4, 6]), "outs": [None]},
+                   {"k": "addi", "ins": [rng.choice(live_vis)], "imm": 1, "outs": [None]} if live_vis else
+                   {"k": "li", "ins": [], "imm": 8, "outs": [None]}]
+        feeders = [nv, nv + 1]; nv += 2
     iters = []
     for _ in range(k):
         if rng.random() < copy_iters:
-            src = rng.choice(outer)
-            pre_ops.append({"k": "mv", "ins": [src], "outs": [None]})
-            iters.append(nv)
-            nv += 1
+            prefix.append({"k": "mv", "ins": [rng.choice(live_vis)], "outs": [None]})
+            iters.append(nv); nv += 1
         else:
-            cand = [v for v in outer if v not in iters]
+            cand = [v for v in live_vis if v not in iters]
             if cand:
                 iters.append(rng.choice(cand))
     k = len(iters)
-    lb, ub = rng.choice(outer), rng.choice(outer)
-    step = rng.choice(outer) if rng.random() < 0.5 else None
+    bdef = []
+    if bounds is None:
+        bops, bdef, nv = _gen_ops(rng, arch, rng.randint(0, 3), visible + [v for v in iters if v not in visible], nv,
+                                  dead, pick_type, wide, ARITH_KINDS)
+        prefix += bops
+        if feeders:
+            prefix.append({"k": rng.choice(["add", "mul"]), "ins": feeders, "outs": [None]})
+            bdef = bdef + [nv]; nv += 1
+        cands = [v for v in visible + bdef if v not in dead and v not in iters]
+        if len(cands) < 2:
+            prefix += [{"k": "li", "ins": [], "imm": 1, "outs": [None]}, {"k": "li", "ins": [], "imm": 9, "outs": [None]}]
+            cands += [nv, nv + 1]; bdef += [nv, nv + 1]; nv += 2
+        pick = lambda: rng.choice(bdef) if bdef and rng.random() < 0.6 else rng.choice(cands)
+        lb, ub = pick(), (bdef[-1] if feeders else pick())
+        step = pick() if rng.random() < 0.5 else None
+    else:
+        lb, ub, step = bounds
     res = list(range(nv, nv + k)); nv += k
     bargs = list(range(nv, nv + k + 1)); nv += k + 1
     res_t = [pick_type() if rng.random() < 0.3 else None for _ in range(k)]
     barg_t = [pick_type() if rng.random() < 0.3 else None for _ in range(k + 1)]
-    bdead = set(iters) | dead
-    body, body_def, nv = _gen_ops(rng, arch, rng.randint(1, 6), [v for v in outer if v not in iters] + bargs, nv,
+    bdead = set(iters) | set(dead)
+    bvis = [v for v in visible + bdef if v not in iters] + bargs
+    body, body_def, nv = _gen_ops(rng, arch, rng.randint(1, 5) if nested is None else rng.randint(0, 3), bvis, nv,
                                   bdead, pick_type, wide, kinds)
-    # each carried position yields either its own block argument or a body value used by no other position
-    # (a value in two loop-carried groups needs a copy; the real allocator then re-replaces a stale value
-    # object and leaves the IR ill-formed -- outside the model, see "not covered")
+    if nested is not None:
+        ipre, iloop, nv, ires, _ = _gen_for(rng, env, bvis + body_def, nv, bdead, bounds=nested, copy_iters=1.0)
+        body += ipre + [iloop]
+        # values visible after the inner loop: everything visible before it, the copies' ids are consumed
+        after_vis = bvis + body_def + ires
+        tmp, tmp_def, nv = _gen_ops(rng, arch, rng.randint(1, 3), after_vis, nv, bdead, pick_type, wide, ARITH_KINDS)
+        body += tmp
+        body_def = body_def + ires + tmp_def
     ycand = [v for v in body_def if v not in bdead]
     rng.shuffle(ycand)
     yld = []
@@ -815,14 +890,46 @@ def gen_loop(rng, p_pre=0.08, p_pool=0.4, copy_iters=0.85, wide=False):
         else:
             body.append({"k": "li", "ins": [], "imm": 3, "outs": [None]})
             yld.append(nv); nv += 1
+    # outer values consumed by an in/out slot inside the body stay dead afterwards
+    dead |= {v for v in bdead if v in visible}
+    dead |= set(iters)
     loop = {"k": "for", "lb": lb, "ub": ub, "step": step, "iters": iters, "res": res_t, "bargs": barg_t,
             "body": body, "yield": yld}
-    post_vis = [v for v in outer if v not in iters or rng.random() < 0.5] + res
-    post_dead = set(v for v in bdead if v in outer and v not in iters) | dead
-    post, post_def, nv = _gen_ops(rng, arch, rng.randint(0, 4), post_vis, nv, post_dead, pick_type, wide, kinds)
-    cands = [v for v in post_vis + post_def if v not in post_dead]
+    return prefix, loop, nv, res, bdef
+
+
+def gen_loop(rng, p_pre=0.08, p_pool=0.4, copy_iters=0.85, wide=False, nest=False):
+    """riscv function: preamble, one riscv_scf.for (nest=True: with an inner loop whose bounds are
+    defined outside the outer loop and used nowhere else, followed by temporaries), postamble"""
+    arch = "riscv"
+    pool, inf, pick_type = _gen_env(rng, arch, p_pre, p_pool, False)
+    if pool is not None and rng.random() < 0.7:
+        pool = list(dict.fromkeys(pool + rng.sample(default_pool(arch), 4 if nest else 3)))
+    args = [pick_type() for _ in range(rng.choice([0, 1, 2]))]
+    dead = set()
+    kinds = [k for k in RISCV_KINDS if k != "gen"] + ["gen"] * 2
+    env = (arch, pick_type, wide, kinds)
+    pre_ops, pre_def, nv = _gen_ops(rng, arch, rng.randint(2, 5), list(range(len(args))), len(args), dead,
+                                    pick_type, wide, kinds)
+    visible = list(range(len(args))) + pre_def
+    nested = None
+    if nest:
+        # the inner loop's lb / ub / step: defined before the outer loop, used by nothing else
+        m = rng.choice([2, 3])
+        src = [v for v in visible if v not in dead]
+        for q in range(m):
+            if src and rng.random() < 0.5:
+                pre_ops.append({"k": "addi", "ins": [rng.choice(src)], "imm": 1, "outs": [None]})
+            else:
+                pre_ops.append({"k": "li", "ins": [], "imm": rng.choice([1, 2, 5]), "outs": [None]})
+        ded = list(range(nv, nv + m)); nv += m
+        nested = (ded[0], ded[1], ded[2] if m == 3 else None)
+    prefix, loop, nv, res, bdef = _gen_for(rng, env, visible, nv, dead, nested=nested, copy_iters=copy_iters)
+    post_vis = [v for v in visible + bdef if v not in loop["iters"]] + res
+    post, post_def, nv = _gen_ops(rng, arch, rng.randint(0, 4), post_vis, nv, dead, pick_type, wide, kinds)
+    cands = [v for v in post_vis + post_def if v not in dead]
     ret = rng.sample(cands, min(len(cands), rng.choice([0, 1, 2])))
-    return {"arch": arch, "pool": pool, "inf": inf, "args": args, "ops": pre_ops + [loop] + post, "ret": ret}
+    return {"arch": arch, "pool": pool, "inf": inf, "args": args, "ops": pre_ops + prefix + [loop] + post, "ret": ret}
 
 
 # ------------------------------------------------------------------------------------------------
@@ -857,12 +964,18 @@ def _sop(o, resids, ctor):
 def coq_expr(case):
     fl = _Flat(case)
     ops = []
+    def loop(o, resids, extra, ctor, sctor):
+        bargs, body = extra
+        step = "None" if o.get("step") is None else f"(Some {coq_nat(o['step'])})"
+        items = [loop(bo, br, be, "BF_", "B_") if bo["k"] == "for" else _sop(bo, br, sctor) for bo, br, be in body]
+        return (f"{ctor} {coq_nat(o['lb'])} {coq_nat(o['ub'])} {step} {_nl(o['iters'])} {_nl(resids)} "
+                f"{_nl(bargs)} {coq_list(items)} {_nl(o['yield'])}")
     for o, resids, extra in fl.ops:
         if o["k"] == "for":
-            bargs, body = extra
-            step = "None" if o.get("step") is None else f"(Some {coq_nat(o['step'])})"
-            ops.append(f"F_ {coq_nat(o['lb'])} {coq_nat(o['ub'])} {step} {_nl(o['iters'])} {_nl(resids)} "
-                       f"{_nl(bargs)} {coq_list(_sop(bo, br, 'B_') for bo, br, _ in body)} {_nl(o['yield'])}")
+            if any(bo["k"] == "for" for bo, _, _ in extra[1]):
+                ops.append(loop(o, resids, extra, "F2_", "BS_"))     # depth two (deeper nests are not generated)
+            else:
+                ops.append(loop(o, resids, extra, "F_", "B_"))
         else:
             ops.append(_sop(o, resids, "S_"))
     ops.append(f"S_ {_nl(case['ret'])} [] [] KOther true")          # riscv_func.return / x86 sink
@@ -914,12 +1027,14 @@ def run(ctx: Ctx):
     k = 10 if thorough else 1
     fams = [
         ("riscv-straight-line", [gen_straight(rng, "riscv", allow_neg_pre=(rng.random() < 0.2), wide=rng.random() < 0.5)
-                                 for _ in range(130 * k)]),
+                                 for _ in range(100 * k)]),
         ("riscv-straight-line-many-live", [gen_straight(rng, "riscv", nops=rng.randint(10, 22), p_pre=0.05, p_pool=0.7,
-                                                        wide=True) for _ in range(60 * k)]),
-        ("x86-straight-line", [gen_straight(rng, "x86", allow_neg_pre=(rng.random() < 0.2), wide=rng.random() < 0.5)
-                               for _ in range(130 * k)]),
-        ("riscv-scf-for", [gen_loop(rng, wide=rng.random() < 0.5) for _ in range(130 * k)]),
+                                                        wide=True) for _ in range(40 * k)]),
+        ("x86-straight-line-gpr-aliases", [gen_straight(rng, "x86", p_pre=0.25, allow_neg_pre=(rng.random() < 0.1),
+                                                        wide=rng.random() < 0.5) for _ in range(90 * k)]),
+        ("x86-vector-aliases", [gen_straight(rng, "x86v", p_pre=0.25, wide=rng.random() < 0.5) for _ in range(50 * k)]),
+        ("riscv-scf-for", [gen_loop(rng, wide=rng.random() < 0.5) for _ in range(100 * k)]),
+        ("riscv-scf-for-nest2", [gen_loop(rng, wide=rng.random() < 0.5, nest=True) for _ in range(80 * k)]),
     ]
     allc = []
     for name, cases in fams:
